@@ -1,14 +1,15 @@
 //! Functions for limiting execution time.
 //!
-//! This module contains a global variable, SUIRON_STOP_QUERY,
-//! and therefore has 'unsafe' code.
+//! This module contains a global flag, SUIRON_STOP_QUERY. The flag is set
+//! by the timer thread and read by the query thread, so it is atomic.
 
+use std::sync::atomic::{AtomicBool, Ordering};
 use std::time::Duration;
 use thread_timer::ThreadTimer;
 
 use super::logic_var::*;
 
-static mut SUIRON_STOP_QUERY: bool = false;
+static SUIRON_STOP_QUERY: AtomicBool = AtomicBool::new(false);
 
 /// Create a timer with a timeout in milliseconds.
 ///
@@ -26,7 +27,7 @@ static mut SUIRON_STOP_QUERY: bool = false;
 /// let timer = start_query_timer(300);
 /// ```
 pub fn start_query_timer(milliseconds: u64) -> ThreadTimer {
-    unsafe { SUIRON_STOP_QUERY = false; }
+    SUIRON_STOP_QUERY.store(false, Ordering::SeqCst);
     let timer = ThreadTimer::new();
     timer.start(Duration::from_millis(milliseconds),
                 move || { stop_query(); }).unwrap();
@@ -59,7 +60,7 @@ pub fn cancel_timer(timer: ThreadTimer) {
 /// In order to keep the substitution set small, the LOGIC_VAR_ID is
 /// reset to 0 at the start of every query.
 pub fn start_query() {
-    unsafe { SUIRON_STOP_QUERY = false; }
+    SUIRON_STOP_QUERY.store(false, Ordering::SeqCst);
     clear_id();
 }
 
@@ -68,7 +69,7 @@ pub fn start_query() {
 /// The SUIRON_STOP_QUERY is checked in count_rules(), in knowledgebase.rs.
 /// Setting it `true` effectively stops the search for a solution.
 pub fn stop_query() {
-    unsafe { SUIRON_STOP_QUERY = true; }
+    SUIRON_STOP_QUERY.store(true, Ordering::SeqCst);
 }
 
 /// Returns value of SUIRON_STOP_QUERY.
@@ -77,7 +78,7 @@ pub fn stop_query() {
 /// # Return
 /// * true/false
 pub fn query_stopped() -> bool {
-    unsafe { SUIRON_STOP_QUERY }
+    SUIRON_STOP_QUERY.load(Ordering::SeqCst)
 }
 
 #[cfg(test)]
